@@ -764,6 +764,16 @@ func legC07Iter(c *Ctx) {
 	for _, w := range c07Witnesses {
 		run(w.pat, w.rtl, 0, []string{w.in}, "corpus")
 	}
+	// patterns searched through a chain of required landmarks (a leading set loop, then literals): a continuation scan
+	// must not walk back over the loop's characters into the previous match
+	for _, lp := range []string{
+		`(?P<name>[-\w\d\.]+?)(?:\s+at\s+|\s*@\s*|\s*(?:[\[\]@]){3}\s*)(?P<host>[-\w\d\.]*?)\s*(?:dot|\.|(?:[\[\]dot\.]){3,5})\s*(?P<domain>\w+)`,
+		`[-\w.]+?\s*@\s*[-\w.]*?\s*\.\s*\w+`, `\w+@\w+\.\w+`, `[\w-]+\s*=\s*\d+`, `[a-z]+ = [0-9]+;`, `\w+(?:-|\s+)\w+(?:=|\d)\w+`,
+	} {
+		for _, extra := range []regexp2.RegexOptions{regexp2.RE2, 0} {
+			run(lp, false, extra, []string{"a@b.c-d@e.f", "a@b.cd@e.f x@y.z", "k=1k=22 x = 3;y = 4;", "ab-cd=ef-gh1ij", "a@b.c"}, "corpus")
+		}
+	}
 	detInputs := []string{"", "a", "b", "ab", "ba", "aab", "baaab", "a b", "ab\nab", "éa", "abba"}
 	for _, p := range c07Fixed {
 		for _, rtl := range []bool{false, true} {
